@@ -75,7 +75,7 @@ theorem parseExplain_print (n fuel : Nat) (s : PState) (st : SelectStmt) (analyz
     ((((optTok_frame _).run h1).trans ((optTok_frame _).run h2)).trans (scanIW_frame.run h3)).2
   unfold parseExplain
   rw [wp_bind, wp_of_run_ok h1, wp_bind, wp_of_run_ok h2, wp_bind, wp_of_run_ok h3', wp_bind]
-  refine wp_mono (parseSelect_sub s.lowerTbl n fuel st s3 k hok tb3 hk b3) ?_ (fun _ h => h)
+  refine wp_mono (parseSelect_sub s.lowerTbl n fuel false st s3 k hok (fun h => by cases h) tb3 hk b3) ?_ (fun _ h => h)
   intro r s' ⟨hr, hs'⟩
   rw [wp_pure, hr]
   exact ⟨rfl, hs'⟩
